@@ -182,3 +182,6 @@ UNITS += [write_file, _pq10]
 for _u in UNITS:
     if not _u.replay:
         _u.replay = replay.battery('C10/driver.cpp', ['battery'])
+
+# planted one-token breaks for the newer units (thorough tier: each must make an obligation fail)
+write_file.planted = [('wf', r'\(int\)size - bytesSent\)', '(int)size)')]
